@@ -61,7 +61,12 @@ Templates ==
     E(Node("casg", "+=", <<A, Bin("+", Node("un", "-", <<A>>), B)>>)),
     E(Node("casg", "-=", <<A, Bin("*", Grp(Bin("+", A, B)), Id("c"))>>)),
     E(Node("casg", "+=", <<A, Bin("+", Node("idx", "", <<Node("arr", "", <<Num("1")>>), Num("0")>>), B)>>)),
-    E(Node("asg", "=", <<A, Bin("-", Node("un", "++", <<B>>), Id("c"))>>)) }
+    E(Node("asg", "=", <<A, Bin("-", Node("un", "++", <<B>>), Id("c"))>>)),
+    \* update / assignment targets that END in a member access or subscript of a call: one deleted
+    \* token (`.`, `[`) turns the operand into a call, which is not a target
+    E(Node("un", "--", <<Node("mem", "", <<Node("call", "", <<A, Id("c")>>), Id("d")>>)>>)),
+    E(Node("post", "++", <<Node("idx", "", <<Node("call", "", <<Id("f")>>), Num("0")>>)>>)),
+    E(Node("asg", "=", <<Node("mem", "", <<Node("call", "", <<Id("f"), A>>), Id("p")>>), B>>)) }
 
 
 \* `return` outside a function is not JavaScript: such statement lists are used as function bodies only
